@@ -9,12 +9,14 @@
    - flush_durable_enc (C14, no compression): the unauthenticated fail-safe reader over the
      bytes the encryption layer has handed down when all of w_out went through it yields
      w_out again. *)
+From MLA Require Import Limit.
 From MLA Require Import Base Stream Blocks Writer WriterProofs EncLayer EncWriter EncWriterProofs
   EncFlushProofs Sink SinkProofs.
 From Coq Require Import ZifyBool ZifyNat ZifyN.
 Open Scope N_scope.
 
 Section FlushProofs.
+  Context {LIM : Limit}.
   Variable FNMAX : N.
   Variables T_START T_CONTENT T_EOA T_EOF : N.
   Variable H : bytes -> bytes.
@@ -83,8 +85,9 @@ Section FlushProofs.
   Lemma w_finalize_out s s' r : w_finalize_with order s = (s', r) -> prefix (w_out s) (w_out s').
   Proof.
     unfold Writer.w_finalize_with. destruct (w_final s); [intros [= <- <-]; apply prefix_refl|].
-    destruct (w_open s); [|intros [= <- <-]; apply prefix_refl].
-    intros [= <- <-]. cbn [w_out]. apply prefix_app.
+    destruct (w_open s); [|intros [= <- <-]; apply prefix_refl]. cbv zeta.
+    destruct (lim <? _); [intros [= <- <-]; cbn [w_finalized w_out]; apply prefix_app|].
+    destruct (2 ^ 32 <=? _); intros [= <- <-]; cbn [w_finalized w_out]; apply prefix_app.
   Qed.
 
   (* A4: the block stream is append-only *)
@@ -232,6 +235,7 @@ End FlushProofs.
 
 (* ---------- C14 without compression: writer model over the encryption layer ---------- *)
 Section FlushEnc.
+  Context {LIM : Limit}.
   Variable FNMAX : N.
   Variables T_START T_CONTENT T_EOA T_EOF : N.
   Variable H : bytes -> bytes.
